@@ -148,11 +148,18 @@ class HTTPFile(io.IOBase):
 
     def read(self, size=-1, /):
         """Cache-supported read operation (file object)"""
-        data = self.read_range_cached(self._pos, self._pos + size)
-        if size > 0:
-            self._pos += size
+        if size is None or size < 0:
+            # read until the end of the resource
+            stop = self.length
         else:
-            self._pos = self.length
+            # do not read beyond the end of the resource
+            stop = min(self._pos + size, self.length)
+        if stop > self._pos:
+            data = self.read_range_cached(self._pos, stop)
+        else:
+            data = b""
+        # advance the position by the number of bytes read (file semantics)
+        self._pos += len(data)
         return data
 
     def read_range_cached(self, start, stop):
@@ -164,7 +171,8 @@ class HTTPFile(io.IOBase):
         toread = stop - start
         # compute the chunk indices between start and stop
         chunk_start = np.int64(start // self._chunk_size)
-        chunk_stop = np.int64(stop // self._chunk_size + 1)
+        # (the last byte requested is `stop - 1`)
+        chunk_stop = np.int64(max(stop - 1, start) // self._chunk_size + 1)
         data = b""
         pos = start
         for chunk_index in range(chunk_start, chunk_stop):
